@@ -132,6 +132,8 @@ def deviation(c):
         import re
         rx = re.compile("^" + "".join(".*" if ch == "*" else "." if ch == "?" else re.escape(ch) for ch in p) + "$", re.S)
         victims = [q for q in sorted(idx, key=lambda x: x.encode()) if rx.match(q)]
+        if "*" not in p and "?" not in p and any(under(p, q) for q in idx):
+            return "rmglob-directory-not-recursive"
         live = set(wt)
         for q in victims:
             if any(under(x, q) for x in live):
